@@ -2,6 +2,7 @@
 //@ enforce: xcm_dns_query_process
 //@ replace: update_xpoll query_cb timer_mgr_cancel timer_mgr_has_expired timer_mgr_reschedule
 //@ pre-unwind: process_in_progress.0:17
+//@ flags: --object-bits 10
 //@ props: C13 C04 C08
 //@ expect: postcondition>=4 canary=3
 #include "_unit_dns.h"
@@ -9,7 +10,7 @@ void harness(void)
 {
     xv_ghost_havoc();
     xv_td_havoc();
-    struct xcm_dns_query *q;
+    struct xcm_dns_query *q = xv_q_any();
     unsigned p0 = xv_ar.process_n, cb0 = xv_ar.cb_n;
     xcm_dns_query_process(q);
     if (xv_ar.process_n == p0) XV_CANARY("finished query: nothing happens");
